@@ -436,6 +436,10 @@ impl RpcActions for SimRpc {
                     format!("/ip4/192.168.1.7/udp/{}/quic-v1", p.listen_port)
                         .parse()
                         .expect("multiaddr"),
+                    // a relayed listener (reported after the node's own sockets): the UDP port in it is the relay's
+                    format!("/ip4/203.0.113.9/udp/5000/quic-v1/p2p/{}/p2p-circuit", peer_id_for("relay"))
+                        .parse()
+                        .expect("multiaddr"),
                 ];
                 Ok(NetworkInfo {
                     connected_peers: vec![peer_id_for("peer-a"), peer_id_for("peer-b")],
